@@ -9,6 +9,7 @@ import (
 	sdkmath "cosmossdk.io/math"
 	abci "github.com/cometbft/cometbft/abci/types"
 	tmproto "github.com/cometbft/cometbft/proto/tendermint/types"
+	evmante "github.com/haqq-network/haqq/app/ante/evm"
 	sdk "github.com/cosmos/cosmos-sdk/types"
 
 	feemarkettypes "github.com/haqq-network/haqq/x/feemarket/types"
@@ -39,7 +40,19 @@ func c17Gen(r *rand.Rand, tier string) []Case {
 		n = 20000
 	}
 	var out []Case
+	// fixed case: blocks whose transactions declare more than the block gas limit in total (each one below it), at the
+	// limit exactly, with one transaction above it, and on an unlimited block
+	out = append(out, Case{"gw 10000000 " + strings.TrimSuffix(strings.Repeat("1000000,", 30), ","), "gw 10000000 10000000", "gw 10000000 9999999,2,10000001,5",
+		"gw -1 1000000,9223372036854775808,7", "gw 30000 21000,21000"})
 	for i := 0; i < n; i++ {
+		if i%10 == 0 {
+			lim := pick(r, []int64{-1, 1_000_000, 10_000_000, 30_000_000, int64(21000 + r.Intn(10_000_000))})
+			var gs []string
+			for j := 0; j < 1+r.Intn(40); j++ {
+				gs = append(gs, fmt.Sprint(pick(r, []int{21000, 100_000, 1_000_000, 1 + r.Intn(12_000_000)})))
+			}
+			out = append(out, Case{fmt.Sprintf("gw %d %s", lim, strings.Join(gs, ","))})
+		}
 		var c Case
 		parent := pick(r, []*big.Int{big.NewInt(0), big.NewInt(1), big.NewInt(7), big.NewInt(1_000_000_000), new(big.Int).Lsh(big.NewInt(1), 200), randBig(r), big.NewInt(int64(r.Intn(100000)))})
 		el := pick(r, []int64{1, 2, 2, 3, 7, 1 << 31, int64(1 + r.Intn(10))})
@@ -287,6 +300,39 @@ func c17Exec(c Case) (outs []string, fails []Failure, tags []string) {
 					if wm.IsUint64() && new(big.Int).SetUint64(got).Cmp(want) != 0 {
 						fails = append(fails, Failure{Signature: "C17:gas-figure", What: fmt.Sprintf("stored gas figure %d, max(gas used %d, ⌊gasWanted %d · multiplier %s/1e18⌋) = %s", got, u, w, f[3], want), Case: c[i : i+1]})
 					}
+				}
+			case "gw":
+				// the ante decorator that records what a block's transactions declare (GasWantedDecorator), with a finite or
+				// unlimited block gas limit: gw <maxGas> <gas of tx 1,gas of tx 2,…>; output: what the fee market has recorded
+				var maxGas int64
+				fmt.Sscan(f[1], &maxGas)
+				p := k.GetParams(ctx)
+				p.NoBaseFee, p.EnableHeight = false, 0
+				_ = k.SetParams(ctx, p)
+				ctx = ctx.WithBlockHeight(10).WithConsensusParams(&tmproto.ConsensusParams{Block: &tmproto.BlockParams{MaxGas: maxGas, MaxBytes: 10}})
+				// (as baseapp does: the block gas meter carries the consensus limit, an infinite one when there is none)
+				if maxGas > 0 {
+					ctx = ctx.WithBlockGasMeter(sdk.NewGasMeter(uint64(maxGas)))
+				} else {
+					ctx = ctx.WithBlockGasMeter(sdk.NewInfiniteGasMeter())
+				}
+				k.SetTransientBlockGasWanted(ctx, 0)
+				dec := evmante.NewGasWantedDecorator(nw.App.EvmKeeper, k)
+				sum, rejected := new(big.Int), 0
+				for _, gs := range strings.Split(f[2], ",") {
+					var g uint64
+					fmt.Sscan(gs, &g)
+					if _, err := dec.AnteHandle(ctx, c07FeeTx{gas: g}, false, func(c sdk.Context, _ sdk.Tx, _ bool) (sdk.Context, error) { return c, nil }); err != nil {
+						rejected++
+						continue
+					}
+					sum.Add(sum, new(big.Int).SetUint64(g))
+				}
+				got := k.GetTransientGasWanted(ctx)
+				out = fmt.Sprintf("%d rejected=%d", got, rejected)
+				tags = append(tags, "declared-gas-recorded")
+				if sum.IsUint64() && got != sum.Uint64() {
+					fails = append(fails, Failure{Signature: "C17:declared-gas-not-recorded", What: fmt.Sprintf("the accepted transactions of the block declare %s gas in total, the fee market has recorded %d (block gas limit %d): the next base fee is computed from another figure than max(gasWanted × multiplier, gasUsed)", sum, got, maxGas), Case: c[i : i+1]})
 				}
 			case "pv":
 				p := c17Params(f[1:8])
